@@ -89,6 +89,10 @@ impl HopKind {
             HopKind::SerDe { fmt: Format::Json, .. } => "serialize->deserialize(json)",
             HopKind::SerDe { fmt: Format::Ron, .. } => "serialize->deserialize(ron)",
             HopKind::SerDe { fmt: Format::Msgpack, .. } => "serialize->deserialize(msgpack)",
+            HopKind::SerDe { fmt: Format::JsonPretty, .. } => "serialize->deserialize(json_pretty)",
+            HopKind::SerDe { fmt: Format::RonExt, .. } => "serialize->deserialize(ron_ext)",
+            HopKind::SerDe { fmt: Format::RonNamed, .. } => "serialize->deserialize(ron_struct_names)",
+            HopKind::SerDe { fmt: Format::MsgpackNamed, .. } => "serialize->deserialize(msgpack_struct_map)",
         }
     }
 }
@@ -504,6 +508,10 @@ fn hop_index(k: &HopKind) -> u32 {
         HopKind::SerDe { fmt: Format::Json, .. } => 8,
         HopKind::SerDe { fmt: Format::Ron, .. } => 9,
         HopKind::SerDe { fmt: Format::Msgpack, .. } => 10,
+        HopKind::SerDe { fmt: Format::JsonPretty, .. } => 11,
+        HopKind::SerDe { fmt: Format::RonExt, .. } => 12,
+        HopKind::SerDe { fmt: Format::RonNamed, .. } => 13,
+        HopKind::SerDe { fmt: Format::MsgpackNamed, .. } => 14,
     }
 }
 
